@@ -181,8 +181,15 @@ class SubQueryLineageHolder(ColumnLineageMixin):
                     tgt_wildcard = column
                     # several tables may offer a column of the same name and the first one wins:
                     # visit them by name, not in the hash order of the set they were collected in
+                    # (an anonymous SubQuery by its text: its generated name is itself derived from a hash)
                     for src_wildcard in sorted(
-                        self.get_source_columns(tgt_wildcard), key=lambda c: str(c)
+                        self.get_source_columns(tgt_wildcard),
+                        key=lambda c: (
+                            (1, c.parent.query_raw)
+                            if isinstance(c.parent, SubQuery)
+                            and c.parent.alias == f"subquery_{hash(c.parent)}"
+                            else (0, str(c))
+                        ),
                     ):
                         if source_table := src_wildcard.parent:
                             src_table_columns = []
